@@ -53,10 +53,31 @@ def specs(tier, seed):
     # particle-conserving relocation with a constraint indexed after the exchangeable atoms
     add("GrandCanonical", "A3", [["x", "G[E0_trans,E1_trans]", 1.0, "gc"], ["e", "E_trans"]], calc="zero", T=800.0, mu=-0.3, labels=[0, 1, -1], decos=["fix:2"])
     add("GrandCanonical", "A3", [["x", "G[E0_trans,E1_trans]", 1.0, "gc"], ["e", "E0_trans"], ["d", "D_ball"]], T=800.0, mu=-0.3, labels=[0, 1, -1], decos=["fix:2", "tags"])
+    # a user-supplied geometric check that refuses some attempts (max_attempts = 2): failed trials in the history
+    add("GrandCanonical", "A3", [["e", "E_trans"], ["d", "D_ball"]], calc="zero", T=800.0, mu=-0.3, geo_check=True)
+    add("GrandCanonical", "A3", [["e", "E_trans*2"], ["f", "E_trans"]], calc="zero", T=800.0, mu=-0.3, geo_check=True)
+    add("Canonical", "A3", [["d", "D_box"], ["s", "D_ball*2"]], geo_check=True)
+    add("HamiltonianCanonical", "A3", [["h", "H"]], calc="harmonic", decos=["momenta"], geo_check=True)
     # settings a user changes after construction: label for new atoms, accessible volume
     add("GrandCanonical", "A3", [["e", "E_trans"], ["d", "D_ball"]], calc="zero", T=800.0, mu=-0.25, user_settings={"default_label": 0, "accessible_volume": 90.0})
     add("GrandCanonical", "A3", [["e", "E_trans"]], calc="zero", T=800.0, mu=-0.3, user_settings={"default_label": -1, "accessible_volume": 400.0})
     return out
+
+
+def slab_check(context):
+    """A user's geometric check (not serialized: re-attached after a restart, as documented):
+    at most two atoms may sit in the slab x mod 6 >= 2.5."""
+    x = context.atoms.positions[:, 0] % 6.0
+    return int((x >= 2.5).sum()) <= 2
+
+
+def attach_check(sim, set_attempts):
+    for st in sim.moves.values():
+        for m in flatten_moves(st.move):
+            if hasattr(m, "check_move"):
+                m.check_move = slab_check
+                if set_attempts:
+                    m.max_attempts = 2
 
 
 def leaves_of(sim):
@@ -135,7 +156,7 @@ def task(spec):
     n = spec["n"]
     counters = {"configurations": 1, "restarts": 0, "steps_compared": 0, "nontrivial": 0}
     viol = []
-    kind = re.sub(r"_[a-z0-9]+", "", "|".join(e[1] for e in spec["table"]))
+    kind = re.sub(r"_[a-z0-9]+", "", "|".join(e[1] for e in spec["table"])) + ("/user-check" if spec.get("geo_check") else "")
     sig0 = f"C07/{spec['ens']}/{kind}"
     rep = {"check": PID, "func": "task", "arg": spec}
 
@@ -152,6 +173,8 @@ def task(spec):
     if "default_label" in us:
         for m in leaves_of(sim):
             m.default_label = us["default_label"]
+    if spec.get("geo_check"):
+        attach_check(sim, True)
     buf = io.StringIO()
     try:
         sim.default_restart = buf
@@ -180,6 +203,8 @@ def task(spec):
             data = read_json(io.StringIO(files[k]))
             sim2 = cls.from_dict(data)
             sim2.atoms.calc = sysm.calc_factory()
+            if spec.get("geo_check"):
+                attach_check(sim2, False)
         except Exception as e:  # noqa: BLE001
             import traceback
 
